@@ -1056,7 +1056,7 @@ func (c *twoPhaseCommitter) doActionOnGroupMutations(bo *retry.Backoffer, action
 
 	// Already spawned a goroutine for async commit transaction.
 	if actionIsCommit && !actionCommit.retry && !c.isAsyncCommit() {
-		secondaryBo := retry.NewBackofferWithVars(c.store.Ctx(), CommitSecondaryMaxBackoff, c.txn.vars)
+		secondaryBo := retry.NewBackofferWithVars(c.store.Ctx(), CommitSecondaryMaxBackoff, c.txn.vars).KeepGoingWhenKilled()
 		if c.store.IsClose() {
 			logutil.Logger(bo.GetCtx()).Warn("the store is closed",
 				zap.Uint64("startTS", c.startTS), zap.Uint64("commitTS", c.commitTS),
@@ -1685,14 +1685,14 @@ func (c *twoPhaseCommitter) cleanup(ctx context.Context) {
 					c.resourceGroupTag,
 				)
 				c.resolveFlushedLocks(
-					retry.NewBackofferWithVars(cleanupKeysCtx, cleanupMaxBackoff, c.txn.vars),
+					retry.NewBackofferWithVars(cleanupKeysCtx, cleanupMaxBackoff, c.txn.vars).KeepGoingWhenKilled(),
 					c.pipelinedCommitInfo.pipelinedStart,
 					c.pipelinedCommitInfo.pipelinedEnd,
 					false,
 				)
 			}
 		} else if !c.isOnePC() {
-			err = c.cleanupMutations(retry.NewBackofferWithVars(cleanupKeysCtx, cleanupMaxBackoff, c.txn.vars), c.mutations)
+			err = c.cleanupMutations(retry.NewBackofferWithVars(cleanupKeysCtx, cleanupMaxBackoff, c.txn.vars).KeepGoingWhenKilled(), c.mutations)
 			if err != nil {
 				metrics.SecondaryLockCleanupFailureCounterRollback.Inc()
 				logutil.Logger(ctx).Info("2PC cleanup failed", zap.Error(err), zap.Uint64("txnStartTS", c.startTS),
@@ -1702,7 +1702,7 @@ func (c *twoPhaseCommitter) cleanup(ctx context.Context) {
 					zap.Uint64("txnStartTS", c.startTS), zap.Bool("isPessimistic", c.isPessimistic))
 			}
 		} else if c.isPessimistic {
-			err = c.pessimisticRollbackMutations(retry.NewBackofferWithVars(cleanupKeysCtx, cleanupMaxBackoff, c.txn.vars), c.mutations)
+			err = c.pessimisticRollbackMutations(retry.NewBackofferWithVars(cleanupKeysCtx, cleanupMaxBackoff, c.txn.vars).KeepGoingWhenKilled(), c.mutations)
 			if err != nil {
 				metrics.SecondaryLockCleanupFailureCounterRollback.Inc()
 				logutil.Logger(ctx).Info("2PC cleanup failed", zap.Error(err), zap.Uint64("txnStartTS", c.startTS),
@@ -2038,7 +2038,7 @@ func (c *twoPhaseCommitter) execute(ctx context.Context) (err error) {
 			if _, err := util.EvalFailpoint("asyncCommitDoNothing"); err == nil {
 				return
 			}
-			commitBo := retry.NewBackofferWithVars(c.store.Ctx(), CommitSecondaryMaxBackoff, c.txn.vars)
+			commitBo := retry.NewBackofferWithVars(c.store.Ctx(), CommitSecondaryMaxBackoff, c.txn.vars).KeepGoingWhenKilled()
 			err := c.commitMutations(commitBo, c.mutations)
 			if err != nil {
 				logutil.Logger(ctx).Warn("2PC async commit failed", zap.Uint64("sessionID", c.sessionID),
@@ -2055,7 +2055,7 @@ func (c *twoPhaseCommitter) commitTxn(ctx context.Context, commitDetail *util.Co
 	start := time.Now()
 
 	// Use the VeryLongMaxBackoff to commit the primary key.
-	commitBo := retry.NewBackofferWithVars(ctx, int(CommitMaxBackoff), c.txn.vars)
+	commitBo := retry.NewBackofferWithVars(ctx, int(CommitMaxBackoff), c.txn.vars).KeepGoingWhenKilled()
 	err := c.commitMutations(commitBo, c.mutations)
 	commitDetail.CommitTime = time.Since(start)
 	if commitBo.GetTotalSleep() > 0 {
